@@ -53,6 +53,8 @@ type frame struct {
 	rangeOf map[ssa.Value]*rangeInfo
 	panics  []Term // guards under which the function panics explicitly (maypanic)
 	allocBudget func(in ssa.Instruction, g Term, cells Term)
+	hasFrame  bool
+	entryMods []modLoc
 }
 
 type rangeInfo struct {
@@ -70,6 +72,7 @@ type loopInfo struct {
 	stHead  *State          // state at header after havoc
 	phiHead map[*ssa.Phi]Term
 	varEntry Term // decreases value at header
+	frameKeys []string
 	hasVar   bool
 }
 
@@ -531,6 +534,13 @@ func (f *frame) enterLoop(li *loopInfo, reach Term, cur *State, phiPre map[*ssa.
 	keys, all, allocs := f.loopMods(li)
 	if all {
 		vc.havocAll(cur, reach)
+		var ks []string
+		for k := range vc.tt.kindSeen {
+			ks = append(ks, k)
+		}
+		ks = append(ks, "ML")
+		sort.Strings(ks)
+		f.loopFrameAssume(li, ks, cur, reach)
 	} else {
 		ks := make([]string, 0, len(keys))
 		for k := range keys {
@@ -546,6 +556,7 @@ func (f *frame) enterLoop(li *loopInfo, reach Term, cur *State, phiPre map[*ssa.
 			cur.Alloc = vc.declare("alloc", SInt)
 			vc.assume(True, Ge(cur.Alloc, old))
 		}
+		f.loopFrameAssume(li, ks, cur, reach)
 	}
 	li.phiHead = map[*ssa.Phi]Term{}
 	for _, in := range li.header.Instrs {
@@ -621,6 +632,7 @@ func (f *frame) backEdge(li *loopInfo, from *ssa.BasicBlock, cond Term, st *Stat
 		e.Sort = vc.tt.sort(ph.Type())
 		phiVals[ph] = e
 	}
+	f.loopFrameOblige(li, cond, st)
 	if li.spec != nil {
 		for _, c := range li.spec.Invariants {
 			env := f.specEnv(st, li, phiVals)
